@@ -1,11 +1,16 @@
-"""C08 — see harness/props/dev_ctl.py (shared with the other control-endpoint properties)."""
-from harness.props import dev_ctl
+"""C08 — see harness/props/dev_ctl.py (event level, shared with the other control-endpoint properties) and
+harness/props/c07_cyc.py (cycle level, run through `extra_checks`)."""
+from harness.common import framework
+from harness.props import dev_ctl, c07_cyc
 
 PROP = "C08"
-LEAN_MODULES = ["LunaVerif.Props.C08"]
+LEAN_MODULES = ["LunaVerif.Props.C08"] + dev_ctl.CYC_MODULES
 DRIVER = dev_ctl.DRIVER
-REQUIRED_THEOREMS = ["address_changes_only_on_status_ack", "configuration_changes_only_on_status_ack", "old_address_until_commit", "foreign_ack_does_not_commit", "setup_latched_only_by_setup_transaction", "bus_reset_clears", "commit_returns_to_idle"]
-RULE = dev_ctl.RULE
+REQUIRED_THEOREMS = ["address_changes_only_on_status_ack", "configuration_changes_only_on_status_ack", "old_address_until_commit", "foreign_ack_does_not_commit", "setup_latched_only_by_setup_transaction", "bus_reset_clears", "commit_returns_to_idle",
+                     "handshake_forwarded_only_for_own_in_token", "foreign_handshake_is_invisible",
+                     "address_strobe_only_on_gated_ack_in_set_address", "config_strobe_only_on_gated_ack_in_set_configuration",
+                     "address_strobe_returns_to_idle", "cycle_refines_event", "cycle_refines_event_run"]
+RULE = dev_ctl.RULE + dev_ctl.CYC_RULE
 ASSUMPTIONS = dev_ctl.ASSUMPTIONS
 PARTIAL = dev_ctl.PARTIAL["C08"]
 
@@ -15,4 +20,10 @@ def gen_cases(tier, rng):
 
 
 def run_case(desc):
+    if desc.get("mode") == "cyc":
+        return c07_cyc.run_case(desc)
     return dev_ctl.run_dev_case(desc, PROP)
+
+
+def extra_checks(tier, rng, proof):
+    return c07_cyc.extra_checks(tier, rng, proof, nproc=framework.NPROC, profiles=("c08",))
